@@ -27,7 +27,7 @@ Definition cstep (q : cstate) (e : ev) : option cstate :=
   match q, e with
   | Closed, TStart => Some (Open None)
   | Open None, Handled i => Some (Open (Some i))
-  | Open h, TFinish r sts =>
+  | Open h, TFinish r sts _ =>
       if stages_ok sts
          && match h with
             | None => negb (handled_stages sts)
@@ -56,12 +56,12 @@ Definition quiescent (s : st) : Prop :=
 Lemma iteration_ok i o s : quiescent s ->
   match iteration i o s with
   | Continue s' => quiescent s'
-  | Return s' => crun Closed (out (epilogue s')) = Some Closed
+  | Return s' e => crun Closed (out (epilogue s' e)) = Some Closed
   end.
 Proof.
-  intros (H1 & H2 & H3 & H4 & H5). destruct s as [st0 sk rc cu ou]. simpl in *. subst.
+  intros (H1 & H2 & H3 & H4 & H5). destruct s as [st0 sk rc cu se ou]. simpl in *. subst.
   destruct o; cbv [iteration do_start do_finish record push pop emit set_cur reset_ctx epilogue pop_all
-                   started stack rec cur out]; simpl.
+                   started stack rec cur serr out]; simpl.
   - (* OKeep *) unfold quiescent; simpl. repeat split; auto.
     rewrite <- ?app_assoc. rewrite !crun_app, H5. simpl. rewrite Nat.eqb_refl. reflexivity.
   - rewrite <- ?app_assoc. rewrite !crun_app, H5. simpl. rewrite Nat.eqb_refl. reflexivity.
@@ -71,21 +71,86 @@ Proof.
   - rewrite <- ?app_assoc. rewrite !crun_app, H5. simpl. rewrite Nat.eqb_refl. reflexivity.
 Qed.
 
-Lemma serve_from_ok : forall script i s, quiescent s ->
-  crun Closed (out (serve_from i script s)) = Some Closed.
+Lemma serve_from_ok : forall tmo script i s, quiescent s ->
+  crun Closed (out (serve_from tmo i script s)) = Some Closed.
 Proof.
-  induction script as [|o rest IH]; intros i s Q.
-  - cbn [serve_from]. destruct Q as (H1 & H2 & H3 & H4 & H5). destruct s as [st0 sk rc cu ou]. simpl in *. subst.
+  intros tmo. induction script as [|o rest IH]; intros i s Q.
+  - cbn [serve_from]. destruct Q as (H1 & H2 & H3 & H4 & H5). destruct s as [st0 sk rc cu se ou]. simpl in *. subst.
     destruct (i =? 1).
-    + cbv [do_start do_finish record push pop emit epilogue pop_all started stack rec cur out]; simpl.
+    + cbv [do_start do_finish record push pop emit epilogue pop_all started stack rec cur serr out]; simpl.
       rewrite <- ?app_assoc. rewrite !crun_app, H5. reflexivity.
-    + cbv [epilogue pop_all started stack rec cur out length]. simpl. exact H5.
+    + cbv [epilogue pop_all started stack rec cur serr out length]. simpl. exact H5.
   - cbn [serve_from]. pose proof (iteration_ok i o s Q) as H.
-    destruct (iteration i o s) as [s'|s']; auto.
+    destruct (iteration i o s) as [s'|s' e]; auto.
 Qed.
 
-Theorem serve_wellformed : forall script, crun Closed (serve script) = Some Closed.
+Theorem serve_wellformed : forall tmo script, crun Closed (serve tmo script) = Some Closed.
 Proof.
-  intros script. unfold serve. apply serve_from_ok.
+  intros tmo script. unfold serve. apply serve_from_ok.
   unfold quiescent, init; simpl. repeat split; reflexivity.
+Qed.
+
+(* ---------- the error a finish carries is the error of its own exchange ---------- *)
+(* the recordable failures: malformed head, body error, write error (hijack and Connection: close end the
+   connection with errors that are not recorded) *)
+Definition fails (o : outcome) : bool :=
+  match o with OMalformed | OBodyErr | OWriteErr => true | _ => false end.
+Definition continues (o : outcome) : bool := match o with OKeep => true | _ => false end.
+
+(* what the finishes of a connection must report: one flag per request reached, each its own outcome; a
+   connection on which nothing arrives has one finish without an error *)
+Fixpoint own_errors (tmo : bool) (i : nat) (script : list outcome) : list bool :=
+  match script with
+  | [] => if i =? 1 then [tmo] else []      (* the request that never came: a read timeout is its error, EOF is none *)
+  | o :: rest => fails o :: (if continues o then own_errors tmo (S i) rest else [])
+  end.
+
+Fixpoint finish_errors (l : list ev) : list bool :=
+  match l with
+  | [] => []
+  | TFinish _ _ e :: r => e :: finish_errors r
+  | _ :: r => finish_errors r
+  end.
+
+Lemma finish_errors_app a b : finish_errors (a ++ b) = finish_errors a ++ finish_errors b.
+Proof. induction a as [|e a IH]; simpl; auto. destruct e; simpl; rewrite ?IH; reflexivity. Qed.
+
+Definition clean_between (s : st) : Prop :=
+  started s = false /\ stack s = [] /\ serr s = false.
+
+Lemma serve_from_errors : forall tmo script i s, clean_between s ->
+  finish_errors (out (serve_from tmo i script s)) = finish_errors (out s) ++ own_errors tmo i script.
+Proof.
+  intros tmo. induction script as [|o rest IH]; intros i s (H1 & H2 & H3); destruct s as [st0 sk rc cu se ou]; simpl in *; subst.
+  - cbn [serve_from own_errors]. destruct (i =? 1).
+    + cbv [do_start do_finish record push pop emit epilogue pop_all started stack rec cur serr out length]; simpl.
+      rewrite !finish_errors_app. simpl. rewrite ?app_nil_r. reflexivity.
+    + cbv [epilogue pop_all started stack rec cur serr out length]. simpl. rewrite app_nil_r. reflexivity.
+  - cbn [serve_from own_errors]. destruct o.
+    + (* OKeep: the loop goes on from a clean state *)
+      cbv beta iota zeta delta [iteration].
+      rewrite IH; [|unfold clean_between; cbv [reset_ctx do_finish do_start record push pop emit set_cur started stack serr]; simpl; repeat split; reflexivity].
+      cbv [do_start do_finish record push pop emit set_cur reset_ctx started stack rec cur serr out fails continues]; simpl.
+      rewrite !finish_errors_app. simpl. rewrite ?app_nil_r, <- ?app_assoc. reflexivity.
+    + cbv [iteration do_start do_finish record push pop emit set_cur reset_ctx epilogue pop_all
+           started stack rec cur serr out length fails continues]; simpl.
+      rewrite !finish_errors_app; simpl; rewrite ?app_nil_r; reflexivity.
+    + cbv [iteration do_start do_finish record push pop emit set_cur reset_ctx epilogue pop_all
+           started stack rec cur serr out length fails continues]; simpl.
+      rewrite !finish_errors_app; simpl; rewrite ?app_nil_r; reflexivity.
+    + cbv [iteration do_start do_finish record push pop emit set_cur reset_ctx epilogue pop_all
+           started stack rec cur serr out length fails continues]; simpl.
+      rewrite !finish_errors_app; simpl; rewrite ?app_nil_r; reflexivity.
+    + cbv [iteration do_start do_finish record push pop emit set_cur reset_ctx epilogue pop_all
+           started stack rec cur serr out length fails continues]; simpl.
+      rewrite !finish_errors_app; simpl; rewrite ?app_nil_r; reflexivity.
+    + cbv [iteration do_start do_finish record push pop emit set_cur reset_ctx epilogue pop_all
+           started stack rec cur serr out length fails continues]; simpl.
+      rewrite !finish_errors_app; simpl; rewrite ?app_nil_r; reflexivity.
+Qed.
+
+Theorem finish_error_is_own : forall tmo script, finish_errors (serve tmo script) = own_errors tmo 1 script.
+Proof.
+  intros tmo script. unfold serve. rewrite serve_from_errors; [reflexivity|].
+  unfold clean_between, init; simpl. repeat split; reflexivity.
 Qed.
